@@ -114,11 +114,11 @@ impl SchedulerContext {
         let timestamp = self.logical_clock.fetch_add(1, Ordering::AcqRel);
         self.lower_timestamps[index].fetch_max(timestamp, Ordering::AcqRel);
         let previous = self.validation.rewind(index);
+        #[cfg(grevm_verif)]
+        crate::verif::event(crate::verif::Event::Rewind { index, ts: timestamp, previous });
         if previous > index {
             self.validation_resets.fetch_add(1, Ordering::Relaxed);
         }
-        #[cfg(grevm_verif)]
-        crate::verif::event(crate::verif::Event::Rewind { index, ts: timestamp });
     }
 
     #[inline]
